@@ -454,6 +454,30 @@ impl World {
         true
     }
 
+    /// Like `warm_up_identifiers`, but in the middle of a history: `n` acknowledged QoS 1 publishes
+    /// that leave no trace in `ops` (the indices of the history's own operations stay valid).
+    pub fn advance_identifiers(&mut self, n: u32) -> bool {
+        for _ in 0..n {
+            let spec = OpSpec::Publish(PublishSpec { qos: Some(1), topic: Some("w".into()), ..Default::default() });
+            let Some(i) = self.start_op(0, spec) else { return false };
+            self.quiesce(false);
+            self.sync_wire();
+            let pid = match self.pkts.last().map(|p| p.decoded.clone()) {
+                Some(Ok(rc::Packet::Publish(p))) => p.pid,
+                _ => None,
+            };
+            let Some(pid) = pid else { return false };
+            self.reader.feed(rc::encode(&rc::Packet::Puback(rc::Ack { pid, ..Default::default() }), &rc::Form::short()));
+            self.quiesce(false);
+            if self.ops[i].res != Some(OpRes::Ok) || i + 1 != self.ops.len() {
+                return false;
+            }
+            self.ops.pop();
+            self.active_ops.retain(|x| *x != i);
+        }
+        true
+    }
+
     /// Poll one operation future once. Returns true if it completed now.
     pub fn poll_op(&mut self, i: usize) -> bool {
         self.total_polls += 1;
